@@ -313,6 +313,15 @@ impl Value {
             (x @ Value::Null, Value::Int(y)) => { *x = Value::Int(*y) },
             (x @ Value::Null, Value::Float(y)) => { *x = Value::Float(*y) },
             (x @ Value::Null, Value::Interval(y)) => { *x = Value::Interval(*y) },
+            // INT and REAL mixed (e.g. the branches of a CASE): continue as REAL instead of ignoring the value
+            (Value::Float(x), Value::Int(y)) => float_f(&mut x.0, *y as f64),
+            (x @ Value::Int(_), Value::Float(y)) => {
+                if let Value::Int(current) = x {
+                    let mut current = *current as f64;
+                    float_f(&mut current, y.0);
+                    *x = Value::Float(Float(current));
+                }
+            },
             _ => {}
         }
     }
